@@ -714,12 +714,44 @@ func ruleQuoteAlphabet(p *Prog, r *Report) {
 	if lf := p.MustFunc(r, "sml", "lexQuotedString"); lf != nil {
 		key3 := rule + ":sml.lexQuotedString:terminator"
 		found := false
+		// by evaluation first: a one-character string of every ASCII character
+		// (other than a line break) followed by more text and another quote
+		evaluated := true
+		var wrong []string
+		for c := 0; c < 128 && evaluated; c++ {
+			if c == '\r' || c == '\n' {
+				continue
+			}
+			text := `"` + string(rune(c)) + `"z"`
+			want := text[:3]
+			if c == '"' {
+				want = `""`
+			}
+			res, ok := lexRun(p, lf, text, 0, "lexMessageText")
+			if !ok || len(res.toks) != 1 {
+				evaluated = false
+				break
+			}
+			if res.toks[0].val != want || res.end != len(want) {
+				wrong = append(wrong, fmt.Sprintf("the text %q yields the string token %q, expected %q", text, res.toks[0].val, want))
+			}
+		}
+		if evaluated {
+			if len(wrong) > 0 {
+				r.bad(rule, key3, p.Pos(lf.Pos()), "a quoted string does not end at the first double quote: "+strings.Join(firstN(wrong, 3), "; "))
+			} else {
+				r.ok(rule, key3, p.Pos(lf.Pos()), `evaluated on every ASCII character: a quoted string ends at the first '"'; a backslash does not escape it`)
+			}
+			found = true
+		}
 		for _, c := range callSites(lf, "strings.Index") {
 			if cs, ok := c.Common().Args[1].(*ssa.Const); ok && constVal(cs).K == KStr && constVal(cs).S == `"` {
 				found = true
 			}
 		}
-		if found {
+		if evaluated {
+			// decided above
+		} else if found {
 			r.ok(rule, key3, p.Pos(lf.Pos()), `a quoted string ends at the first '"'`)
 		} else {
 			r.unk(rule, key3, p.Pos(lf.Pos()), "how a quoted string ends could not be determined")
